@@ -1,31 +1,66 @@
 """
 C19 — Transport faults are contained: no foreign results, and the proxy recovers.
 
-Model   : lean/JRV/Model/Transport.lean (library logic + environment model of http.client / peer)
-Theorems: lean/JRV/Properties/C19.lean
-Tie     : extracted facts (tools/extractors/transport.py) + correspondence: fault scripts run against a scripted
-          raw-socket peer (harness/peer.py) over TCP and Unix sockets with a real ServerProxy; per-call outcome
-          classes {own result, TransportError(code), exception family} compared with the model on the same script.
-Monitor : the property statement: own token or an exception; TransportError carries URL and status; never a foreign
-          token; after the faults stop at most one further call fails before healthy calls succeed.
+Model   : lean/JRV/Model/Transport.lean (library logic + environment model of http.client / peer / kernel)
+Theorems: lean/JRV/Properties/C19.lean, companions of the extracted facts in C19Gen.lean
+Tie     : extracted facts (tools/extractors/transport.py; the two `Lib` switches of the model are *inputs* taken from
+          the facts) + correspondence: fault scripts run against a scripted raw-socket peer (harness/peer.py) over TCP
+          and Unix sockets with a real ServerProxy; per-call outcome classes {own result, TransportError(code),
+          exception family} compared with the model on the same script.
+Monitor : the property statement: own token or an exception; TransportError carries URL and status and is raised for
+          EVERY non-200 reply the call actually received (whatever its code in {201 … 503}, with or without a length,
+          whatever its body looks like: text, a JSON-RPC result for this call, for another call, an error object);
+          never a foreign token; after the faults stop at most one further call — the first — fails.
 """
 import http.client
 import itertools
 import json
+import re
+import select
 import shutil
 import socket
 import tempfile
 
+import core
 import impl
 import peer as peermod
 
 REQUIRED_THEOREMS = [
-    "C19_own_or_raise", "C19_session_own", "C19_transport_error", "C19_recovery", "C19_healthy_stays",
-    "C19_recovery_tight", "C19_gen_closeOnError", "C19_gen_drainWhenLength", "C19_gen_emptyBodyNone",
+    "C19_own_or_raise_partial", "C19_session_own_partial", "C19_unsolicited_reply_is_returned", "C19_hidden_reply_is_dropped",
+    "C19_transport_error", "C19_error_codes_not_success", "C19_healthy_stays", "C19_first_after_faults", "C19_recovery",
+    "C19_recovery_after_faults_partial", "C19_recovery_tight",
+    "C19_gen_closeOnError", "C19_gen_successStatus", "C19_gen_raisesTransportError", "C19_gen_libSwitches", "C19_gen_emptyBodyNone",
 ]
 
-ALPHABET = ["ok", "okc", "down", "cbr", "rst", "sl404", "sl500", "snl500", "bl204", "trunc", "empty", "nonjson"]
+# status codes of replies with a body (the property: "non-200 status with or without a body"); 204/304 are bodiless
+ERR_CODES = [201, 202, 206, 301, 302, 400, 401, 403, 404, 500, 502, 503]
+BODY_KINDS = ["", "o", "f", "e"]  # text / own result / another token's result / error object
+BODILESS = [204, 304]
+# behaviour families of the property's alphabet (+ surplus bytes and hidden replies); instantiated per use
+FAMILIES = ["ok", "okc", "down", "cbr", "rst", "sl", "snl", "bl", "blz", "trunc", "empty", "nonjson", "xn", "sx", "sy", "sz"]
+UNREAD = ("bl", "sy", "sz", "xl")  # families that leave something unread (or an unread response) on a kept-alive connection
 TAIL = 3  # healthy calls appended to every script
+NON200 = re.compile(r"^(snl|sl|blz|bl|sx|sy|sz)(\d+)")
+
+
+def family(beh):
+    m = re.match(r"^(snl|sl|blz|bl|xn|xl|sx|sy|sz)\d", beh)
+    return m.group(1) if m else beh
+
+
+def instantiate(fam, rng, i):
+    """A concrete behaviour of the family for call number i (codes and body kinds drawn per use)."""
+    if fam in ("sl", "snl"):
+        return "%s%d%s" % (fam, rng.choice(ERR_CODES), rng.choice(BODY_KINDS))
+    if fam in ("bl", "blz"):
+        return "%s%d" % (fam, rng.choice(BODILESS))
+    if fam in ("xn", "xl"):
+        return "%s%d" % (fam, peermod.FOREIGN + i)
+    if fam in ("sx", "sy"):
+        return "%s%d" % (fam, rng.choice(ERR_CODES))
+    if fam == "sz":
+        return "sz%d_%d" % (rng.choice(ERR_CODES), peermod.FOREIGN + i)
+    return fam
 
 
 def classify(kind, val, J):
@@ -33,10 +68,14 @@ def classify(kind, val, J):
         return "r%s" % (val,)
     if isinstance(val, J.TransportError):
         return "te%s" % (val.errcode,)
+    if isinstance(val, J.ProtocolError):
+        return "o:protocol"
     if isinstance(val, ConnectionRefusedError) or isinstance(val, FileNotFoundError):
         return "o:refused"
     if isinstance(val, (http.client.RemoteDisconnected, ConnectionResetError, BrokenPipeError, ConnectionAbortedError)):
         return "o:disconnected"
+    if isinstance(val, http.client.BadStatusLine):
+        return "o:http-garbage"
     if isinstance(val, (http.client.ResponseNotReady, http.client.CannotSendRequest)):
         return "o:http-state"
     if isinstance(val, http.client.IncompleteRead):
@@ -48,106 +87,189 @@ def classify(kind, val, J):
     return "o:%s" % type(val).__name__
 
 
-def run_script(kind, scripts, tmpdir, J, cfg):
-    """Runs one session (fresh peer, fresh proxy).  Returns (outcome classes, violations)."""
+def wait_late_bytes(proxy):
+    """The peer has sent late bytes: wait until they sit in the client's socket (so that the next call sees them)."""
+    try:
+        conn = proxy("transport")._connection[1]
+        sock = getattr(conn, "sock", None)
+    except Exception:
+        sock = None
+    if sock is None:
+        return
+    r, _, _ = select.select([sock], [], [], peermod.QUIESCE_TIMEOUT)
+    if not r:
+        raise core.InfraError("late bytes of the scripted peer did not reach the client's socket within %.0f s" % peermod.QUIESCE_TIMEOUT)
+
+
+def run_script(kind, scripts, tmpdir, J, cfg, tail=TAIL):
+    """Runs one session (fresh peer, fresh proxy).  Returns (outcome classes, violations, notes).
+    `tail`: number of trailing healthy calls the recovery monitor applies to (0: none)."""
     p = peermod.Peer(kind, tmpdir)
-    outs, viol = [], []
+    outs, viol, notes = [], [], []
+    unsolicited = False  # an out-of-alphabet unsolicited reply (xl) has been sent in this session
     try:
         proxy = J.ServerProxy(p.url(), config=cfg)
         url_part = ("127.0.0.1:%d/rpc" % p.port) if kind == "tcp" else "/"
         for i, script in enumerate(scripts):
             p.begin_call(i, script)
+            late = 0
             try:
                 k, v = impl.outcome(proxy.echo, i)
             finally:
-                p.end_call()
+                late = p.end_call()
+            if late:
+                wait_late_bytes(proxy)
             c = classify(k, v, J)
             outs.append(c)
             if k == "ok" and v != i:
-                viol.append("call %d returned %r: a stale or foreign response" % (i, v))
+                if unsolicited:
+                    notes.append("call %d returned %r after an unsolicited complete reply (outside the property's fault alphabet)" % (i, v))
+                else:
+                    viol.append("call %d returned %r: a stale or foreign response" % (i, v))
             if k == "err" and isinstance(v, J.TransportError):
                 if v.url != url_part or not isinstance(v.errcode, int) or v.errcode == 200:
                     viol.append("TransportError of call %d carries url %r status %r" % (i, v.url, v.errcode))
-            # the reply the client actually received for this call: the last request of this call the peer answered
-            p.quiesce()
-            mine = [b for (t, b) in list(p.seen) if t == i]
-            if mine and mine[-1].startswith(("sl", "snl", "bl")) and c != "o:http-state":
-                code = int(mine[-1].lstrip("snlb"))
-                if c != "te%d" % code:
-                    viol.append("call %d was answered with status %d but %s instead of TransportError(%d)"
-                                % (i, code, ("returned %r" % (v,)) if k == "ok" else ("raised %s" % type(v).__name__), code))
+            # the reply the client actually received for this call: the last request of this call the peer answered,
+            # unless unread late bytes preceded that answer on the connection (shadowed) or the client refused to read
+            # (an unread earlier response: http-state)
+            mine = [(b, sh) for (t, b, sh) in list(p.seen) if t == i]
+            if mine and not mine[-1][1] and c != "o:http-state":
+                m = NON200.match(mine[-1][0])
+                if m:
+                    code = int(m.group(2))
+                    if c != "te%d" % code:
+                        viol.append("call %d was answered with status %d (%s) but %s instead of TransportError(%d)"
+                                    % (i, code, mine[-1][0], ("returned %r" % (v,)) if k == "ok" else ("raised %s" % type(v).__name__), code))
+            if any(b.startswith("xl") for (b, _sh) in mine):
+                unsolicited = True
         try:
             proxy("close")()
         except Exception:
             pass
     finally:
         p.stop()
-    # recovery over the healthy tail
-    tail = outs[len(scripts) - TAIL:]
-    fails = [o for o in tail if not o.startswith("r")]
-    if len(fails) > 1 or (tail and not tail[-1].startswith("r")) or (len(tail) >= 2 and tail[0].startswith("r") and fails):
-        viol.append("no recovery once faults stopped: healthy tail outcomes %r" % (tail,))
-    return outs, viol
+    # recovery over the healthy tail: at most one further call fails, and only the first
+    if tail and not unsolicited:
+        t = outs[len(scripts) - tail:]
+        if any(not o.startswith("r") for o in t[1:]):
+            viol.append("no recovery once faults stopped: healthy tail outcomes %r" % (t,))
+    return outs, viol, notes
+
+
+def excluded(sc):
+    """Sessions whose outcome depends on kernel timing (both outcomes are exceptions and both recover), not generated:
+    a connection with unread bytes / an unread response whose peer then goes down (dead socket noticed while
+    sending, or the unread data noticed first), and unread surplus bytes followed by a reset (TCP: ECONNRESET and a
+    retry; Unix sockets know no reset: BadStatusLine)."""
+    for a, b in zip(sc, sc[1:]):
+        if not a or not b:
+            continue
+        if any(family(x) in UNREAD for x in a) and b[0] == "down":
+            return True
+        if any(family(x) in ("sy", "sz") for x in a) and b[0] == "rst":
+            return True
+    return False
+
+
+def lib_flags(ctx):
+    d = ctx.facts.get("singleRequestDrainsWhenLength")
+    c = ctx.facts.get("singleRequestClosesWhenNoLength")
+    return "lib:%d%d" % (1 if (d is None or d) else 0, 1 if c else 0)
 
 
 def run(ctx):
     J = impl.jsonrpclib.jsonrpc
     cfg = impl.jsonrpclib.config.Config()
-    ctx.rule = ("fault scripts over the alphabet %s (one behaviour list per call: first attempt, retry), followed by %d healthy "
-                "calls, on a fresh scripted peer + fresh ServerProxy per script, over TCP and over a Unix socket; quick: every "
-                "single fault followed by every second fault (pairs) plus random scripts of length <= 8; thorough: all scripts of "
-                "length 3 plus random to length 12; distinct_nontrivial = distinct scripts in which a fault is followed by a healthy call"
-                % (ALPHABET, TAIL))
+    ctx.rule = ("fault scripts over the behaviour families %s (one behaviour list per call: first attempt, retry); status codes of "
+                "sl/snl/sx/sy/sz drawn per use from %s, body kinds from {text, own JSON-RPC result, another token's result, error "
+                "object}, bodiless 204/304 with and without `Content-Length: 0`; followed by %d healthy calls (keep-alive or closing), "
+                "on a fresh scripted peer + fresh ServerProxy per script, over TCP and over a Unix socket; quick: every single "
+                "(code, body kind, length) combination, every pair of families, random scripts of length <= 8; thorough: all "
+                "triples of families plus random to length 12; a few sessions with an unsolicited complete reply (outside the "
+                "alphabet) validate the unread-data part of the environment model; distinct_nontrivial = distinct scripts in "
+                "which a fault is followed by a healthy call" % (FAMILIES, ERR_CODES, TAIL))
     old_to = socket.getdefaulttimeout()
-    socket.setdefaulttimeout(10)
+    socket.setdefaulttimeout(30)
     tmpdir = tempfile.mkdtemp(prefix="jrv-c19-")
     lines, impl_out = [], []
+    lib = lib_flags(ctx)
+    rng = ctx.rng
+
+    def inst(fam_script):
+        """[[family, ...], ...] -> concrete behaviours (tokens of extra replies depend on the call number)."""
+        return [[instantiate(f, rng, i) if f in FAMILIES or f == "xl" else f for f in call] for i, call in enumerate(fam_script)]
+
+    def tails():
+        return [rng.choice([[], [], ["ok"], ["okc"]]) for _ in range(TAIL)]
+
     try:
-        scripts = []
-        single = [[b] for b in ALPHABET] + [[b, "ok"] for b in ("cbr", "rst")] + [["cbr", "cbr"], ["rst", "cbr"], ["cbr", "down"],
-                                                                                    ["cbr", "sl500"], ["rst", "trunc"], ["cbr", "bl204"]]
+        sessions = []  # (script, tail length)
+        # every non-200 reply shape once: code x body kind x length announced or not
+        for code in ERR_CODES:
+            for bk in BODY_KINDS:
+                sessions.append(([["sl%d%s" % (code, bk)]], TAIL))
+                sessions.append(([["snl%d%s" % (code, bk)]], TAIL))
+        for code in BODILESS:
+            sessions.append(([["bl%d" % code]], TAIL))
+            sessions.append(([["blz%d" % code]], TAIL))
+        single = [[b] for b in FAMILIES] + [[b, "ok"] for b in ("cbr", "rst")] + [["cbr", "cbr"], ["rst", "cbr"], ["cbr", "down"],
+                                                                                   ["cbr", "sl"], ["rst", "trunc"], ["cbr", "bl"],
+                                                                                   ["cbr", "sy"], ["rst", "sz"], ["cbr", "xn"]]
         if ctx.thorough:
-            for a, b, c in itertools.product(range(len(ALPHABET)), repeat=3):
-                scripts.append([[ALPHABET[a]], [ALPHABET[b]], [ALPHABET[c]]])
+            for a, b, c in itertools.product(FAMILIES, repeat=3):
+                sessions.append((inst([[a], [b], [c]]), TAIL))
             ctx.exhaustive = not ctx.searching
         else:
-            for a, b in itertools.product(range(len(ALPHABET)), repeat=2):
-                scripts.append([[ALPHABET[a]], [ALPHABET[b]]])
+            for a, b in itertools.product(FAMILIES, repeat=2):
+                sessions.append((inst([[a], [b]]), TAIL))
         for s in single:
-            scripts.append([s])
-            scripts.append([["okc"], s])
-            scripts.append([["bl204"], s])
+            sessions.append((inst([s]), TAIL))
+            sessions.append((inst([["okc"], s]), TAIL))
+            sessions.append((inst([["bl"], s]), TAIL))
+            sessions.append((inst([["sy"], s]), TAIL))
         for _ in range(ctx.budget(60, 600)):
-            n = ctx.rng.randint(1, 8 if not ctx.thorough else 12)
+            n = rng.randint(1, 8 if not ctx.thorough else 12)
             sc = []
             for _i in range(n):
-                if ctx.rng.random() < 0.35:
-                    sc.append(["ok"])
+                if rng.random() < 0.35:
+                    sc.append(rng.choice([["ok"], ["okc"], []]))
                 else:
-                    first = ctx.rng.choice(ALPHABET)
+                    first = rng.choice(FAMILIES)
                     call = [first]
-                    if first in ("cbr", "rst") and ctx.rng.random() < 0.7:
-                        call.append(ctx.rng.choice(ALPHABET))
+                    if first in ("cbr", "rst") and rng.random() < 0.7:
+                        call.append(rng.choice(FAMILIES))
                     sc.append(call)
-            scripts.append(sc)
-        # a bodiless status immediately followed by a peer that is down leaves the connection both unread and
-        # dead: whether the dead socket (EPIPE on the second send) or the unread response (ResponseNotReady) is
-        # noticed first depends on kernel timing; both are exceptions and both recover - not generated
-        scripts = [sc for sc in scripts
-                   if not any(a and b and a[-1].startswith("bl") and b[0] == "down" for a, b in zip(sc, sc[1:]))]
+            sessions.append((inst(sc), TAIL))
+        # outside the property's alphabet: a complete unsolicited reply left unread; the next call returns it (the model says
+        # so: C19_unsolicited_reply_is_returned).  What follows depends on kernel timing: the session ends there.
+        for prefix in ([], [["ok"]], [["sl"]], [["okc"]], [["cbr", "ok"]], [["sy"], []]):
+            sessions.append((inst(prefix + [["xl"], []]), 0))
+            sessions.append((inst(prefix + [["cbr", "xl"], ["ok"]]), 0))
+        sessions = [(sc, t) for (sc, t) in sessions if not excluded(sc)]
         kinds = ["tcp", "unix"]
-        for si, sc in enumerate(scripts):
-            full = sc + [[] for _ in range(TAIL)]
+        outside = 0
+        for si, (sc, tail) in enumerate(sessions):
+            full = sc + (tails() if tail else [])
+            if excluded(full):
+                full = sc + [[] for _ in range(tail)]
             for kind in (kinds if (ctx.thorough or si % 2 == 0) else [kinds[si % 4 // 2]]):
-                outs, viol = run_script(kind, full, tmpdir, J, cfg)
+                outs, viol, notes = run_script(kind, full, tmpdir, J, cfg, tail=tail)
                 for m in viol:
-                    ctx.violate({"transport": kind, "script": full}, m, key=m.split(":")[0][:40])
-                lines.append("net " + " / ".join(" ".join(c) for c in full))
+                    ctx.violate({"transport": kind, "script": full, "tail": tail}, m, key=m.split(":")[0][:40])
+                outside += len(notes)
+                lines.append("net %s " % lib + " / ".join(" ".join(c) for c in full))
                 impl_out.append(" ".join(outs))
                 fault_then_ok = any((c and c[0] not in ("ok",)) for c in sc)
                 ctx.count(case_repr={"transport": kind, "script": full, "outcomes": outs},
                           nontrivial_key=(json.dumps(sc)) if fault_then_ok else None,
                           kind="%s/len%d" % (kind, len(sc)))
+                for call in sc:
+                    for b in call:
+                        ctx.hist["beh/" + family(b)] += 1
+                        m = NON200.match(b)
+                        if m:
+                            ctx.hist["status/%s" % m.group(2)] += 1
+        ctx.extra["foreign_results_after_unsolicited_reply_outside_alphabet"] = outside
     finally:
         socket.setdefaulttimeout(old_to)
         shutil.rmtree(tmpdir, ignore_errors=True)
@@ -157,8 +279,13 @@ def run(ctx):
             ctx.disagree(ln, io_, mo, component="net")
     ctx.traces_validated += len(lines)
     ctx.assumptions.append("environment model of http.client, the scripted peer and the kernel's TCP/Unix sockets (stale connection => "
-                           "disconnect-class error on first use; unread bodiless response => ResponseNotReady) is assumed by the theorems "
-                           "and validated by this correspondence; RST/FIN timing inside the kernel cannot be exhibited by the model")
+                           "disconnect-class error on first use; unread bodiless response => ResponseNotReady; read-ahead discarded with "
+                           "the response; late unread bytes parsed first by the next getresponse) is assumed by the theorems and validated "
+                           "by this correspondence; RST/FIN timing inside the kernel cannot be exhibited by the model (sessions whose "
+                           "outcome depends on it are not generated: see c19.excluded)")
+    ctx.assumptions.append("the peer never leaves a complete unsolicited reply at the head of a kept-alive connection (Beh.framed): the "
+                           "library does not compare reply ids, such a reply is returned by the next call (shown on real sockets, "
+                           "theorem C19_unsolicited_reply_is_returned); this behaviour is outside the property's fault alphabet")
 
 
 def search(ctx):
@@ -172,12 +299,14 @@ def replay(payload):
     case = payload.get("case", {})
     print(json.dumps(case, indent=1))
     tmpdir = tempfile.mkdtemp(prefix="jrv-c19-")
-    socket.setdefaulttimeout(10)
+    socket.setdefaulttimeout(30)
     try:
-        outs, viol = run_script(case.get("transport", "tcp"), case["script"], tmpdir, J, cfg)
+        outs, viol, notes = run_script(case.get("transport", "tcp"), case["script"], tmpdir, J, cfg, tail=case.get("tail", TAIL))
     finally:
         shutil.rmtree(tmpdir, ignore_errors=True)
     print("outcomes:", outs)
+    for n in notes:
+        print("note:", n)
     for v in viol:
         print("VIOLATION reproduced:", v)
     return 1 if viol else 0
